@@ -196,6 +196,19 @@ Proof.
   intros _. destruct L. lia.
 Qed.
 
+Lemma read_multi_comment_ok n st : (nu st < n)%nat -> ch st <> 0 ->
+  exists l st', read_multi_comment n st = OK (l, st') /\ le_st st' st /\ (nu st' < nu st)%nat.
+Proof.
+  intros Hn Hc. unfold read_multi_comment.
+  pose proof (read_char_le st) as L1. pose proof (read_char_lt st Hc) as S1.
+  pose proof (read_char_le (read_char st)) as L2.
+  destruct (read_multi_ok n (read_char (read_char st))) as (l & st' & R & L3 & _).
+  { destruct L1, L2. lia. }
+  rewrite R. cbn. eexists _, st'. split; [reflexivity|].
+  split; [eapply le_trans; [exact L3|eapply le_trans; eassumption]|].
+  destruct L2, L3. lia.
+Qed.
+
 (* ---- numbers ---- *)
 Lemma read_exponent_ok n st : (nu st < n)%nat ->
   exists l st', read_exponent n st = OK (l, st') /\ le_st st' st.
